@@ -146,6 +146,42 @@ def _first_guard(fn):
     return None
 
 
+def _effective(fn):
+    """top-level statements after the docstring and the local imports"""
+    return [s for s in fn.body if not (isinstance(s, ast.Expr) and isinstance(s.value, ast.Constant))
+            and not isinstance(s, (ast.Import, ast.ImportFrom))]
+
+
+def _guard_exc(fn, test_text):
+    """the exception class raised by the unique top-level `if <test_text>: raise X(...)`"""
+    hits = [s for s in fn.body if isinstance(s, ast.If) and ast.unparse(s.test) == test_text]
+    if len(hits) != 1:
+        raise SiteError(f"{fn.name}: expected exactly one `if {test_text}`")
+    body = hits[0].body
+    if not (len(body) == 1 and isinstance(body[0], ast.Raise) and not hits[0].orelse):
+        raise SiteError(f"{fn.name}: `if {test_text}` no longer just raises")
+    ex = body[0].exc
+    name = ast.unparse(ex.func) if isinstance(ex, ast.Call) else ast.unparse(ex)
+    if name not in py2v.EXCS:
+        raise SiteError(f"{fn.name}: raise of {name}")
+    return name, hits[0]
+
+
+def _index_of(fn, stmt_or_text):
+    eff = _effective(fn)
+    for i, s in enumerate(eff):
+        if s is stmt_or_text or (isinstance(stmt_or_text, str) and ast.unparse(s) == stmt_or_text):
+            return i
+    raise SiteError(f"{fn.name}: statement `{stmt_or_text}` not found at top level")
+
+
+NDIM_MISMATCH = "any((x.ndim != arrays[0].ndim for x in arrays))"
+OFFAXIS_MISMATCH = ("any((x.shape[ax] != arrays[0].shape[ax] for x in arrays "
+                    "for ax in set(range(arrays[0].ndim)) - {axis}))")
+SHAPES_DIFFER = "len({x.shape for x in arrays}) != 1"
+TO_COO = "arrays = [x if isinstance(x, COO) else COO(x) for x in arrays]"
+
+
 def _names_outside_extern(e, extern):
     out = set()
 
@@ -254,8 +290,44 @@ def _sec_coo_site(coo_tree, fname):
                f"{'true' if g == 'check_consistent_fill_value' else 'false'}.")
     out.append(f"Definition site_{fname}_checks_zero_fill : bool := "
                f"{'true' if g == 'check_zero_fill_value' else 'false'}.\n")
-    return out, {"flags": {k: v for k, v in fl.items() if k != "_src"}, "guard": g,
-                 "hash": hashlib.sha256(fl["_src"].encode()).hexdigest()[:16]}
+    info = {"flags": {k: v for k, v in fl.items() if k != "_src"}, "guard": g,
+            "hash": hashlib.sha256(fl["_src"].encode()).hexdigest()[:16]}
+    if fname == "concatenate":
+        # order: fill guard, conversion of every member to COO, `if axis is None` (flatten), normalize_axis,
+        # ndim mismatch, off-axis mismatch
+        e1, if1 = _guard_exc(fn, NDIM_MISMATCH)
+        e2, if2 = _guard_exc(fn, OFFAXIS_MISMATCH)
+        if e1 != e2:
+            raise SiteError("concatenate: the two mismatch guards raise different exceptions")
+        idx = [_index_of(fn, "check_consistent_fill_value(arrays)"), _index_of(fn, TO_COO),
+               _index_of(fn, "if axis is None:\n    axis = 0\n    arrays = [x.flatten() for x in arrays]"),
+               _index_of(fn, "axis = normalize_axis(axis, arrays[0].ndim)"), _index_of(fn, if1), _index_of(fn, if2)]
+        if idx != sorted(idx) or idx[0] != 0:
+            raise SiteError(f"concatenate: statement order changed: {idx}")
+        out.append(f"(* `if {NDIM_MISMATCH}` / off-axis extents differ: raise {e1} *)")
+        out.append(f"Definition site_concatenate_mismatch_exc : exc := {e1}.\n")
+        info["mismatch_exc"] = e1
+    if fname == "stack":
+        e1, if1 = _guard_exc(fn, SHAPES_DIFFER)
+        idx = [_index_of(fn, "check_consistent_fill_value(arrays)"), _index_of(fn, if1), _index_of(fn, TO_COO),
+               _index_of(fn, "axis = normalize_axis(axis, arrays[0].ndim + 1)")]
+        if idx != sorted(idx) or idx[0] != 0:
+            raise SiteError(f"stack: statement order changed: {idx}")
+        out.append(f"(* `if {SHAPES_DIFFER}`: raise {e1} *)")
+        out.append(f"Definition site_stack_mismatch_exc : exc := {e1}.\n")
+        info["mismatch_exc"] = e1
+    if fname in ("triu", "tril"):
+        # check_zero_fill_value(x); x = asCOO(x, name=...): any sparse format is accepted
+        eff = _effective(fn)
+        if [ast.unparse(x) for x in eff[:2]] != ["check_zero_fill_value(x)", f"x = asCOO(x, name='{fname}')"]:
+            raise SiteError(f"{fname}: guard / conversion lines changed")
+        out.append(f"Definition site_{fname}_converts_input : bool := true.\n")
+    if fname == "diagonal":
+        eff = _effective(fn)
+        if ast.unparse(eff[0]) != "a = asCOO(a, name='diagonal')":
+            raise SiteError("diagonal: conversion line changed")
+        out.append("Definition site_diagonal_converts_input : bool := true.\n")
+    return out, info
 
 
 def _sec_gcxs_site(gcxs_tree, fname):
@@ -284,6 +356,30 @@ def _sec_gcxs_site(gcxs_tree, fname):
     # index-pointer width: the largest number the pointer's dtype must be able to hold (entries AND row numbers)
     out.append(_tr_expr(f"site_gcxs_{fname}_indptr_needed", _assign_value(fn, "needed"), ["total_nnz", "ptr_len"],
                         {"indptr.shape[0]": "Ok ptr_len"}, f"{GCXS_COMMON}:{fname} `needed`"))
+    coo_path = [x for x in fn.body if isinstance(x, ast.If) and ast.unparse(x.test).startswith("arrays[0].ndim")]
+    if len(coo_path) != 1 or ast.unparse(coo_path[0].body[-1]) != \
+            f"return coo_{'concat' if fname == 'concatenate' else 'stack'}(arrays, axis=axis)" \
+            or ast.unparse(coo_path[0].body[-2]) != "arrays = [arr.tocoo() for arr in arrays]":
+        raise SiteError(f"gcxs {fname}: COO shortcut changed")
+    out.append(_tr_expr(f"site_gcxs_{fname}_coo_path", coo_path[0].test, ["ndim"], {"arrays[0].ndim": "Ok ndim"},
+                        f"{GCXS_COMMON}:{fname} low-dimensional members go through the COO joiner when"))
+    if fname == "concatenate":
+        e1, if1 = _guard_exc(fn, NDIM_MISMATCH)
+        e2, if2 = _guard_exc(fn, OFFAXIS_MISMATCH)
+        if e1 != e2:
+            raise SiteError("gcxs concatenate: the two mismatch guards raise different exceptions")
+        idx = [_index_of(fn, "check_consistent_fill_value(arrays)"),
+               _index_of(fn, "if axis is None:\n    axis = 0\n    arrays = [x.flatten() for x in arrays]"),
+               _index_of(fn, "axis = normalize_axis(axis, arrays[0].ndim)"), _index_of(fn, if1), _index_of(fn, if2),
+               _index_of(fn, coo_path[0])]
+    else:
+        e1, if1 = _guard_exc(fn, SHAPES_DIFFER)
+        idx = [_index_of(fn, "check_consistent_fill_value(arrays)"),
+               _index_of(fn, "axis = normalize_axis(axis, arrays[0].ndim + 1)"), _index_of(fn, if1),
+               _index_of(fn, coo_path[0])]
+    if idx != sorted(idx) or idx[0] != 0:
+        raise SiteError(f"gcxs {fname}: statement order changed: {idx}")
+    out.append(f"Definition site_gcxs_{fname}_mismatch_exc : exc := {e1}.")
     for line in ("total_nnz = sum((int(arr.nnz) for arr in arrays))",
                  "if not can_store(indptr.dtype, needed):\n    indptr = indptr.astype(np.min_scalar_type(needed))"):
         _require_line(fn, line)
@@ -338,8 +434,7 @@ def _sec_diagonal(coo_tree):
     if [a.arg for a in fn.args.args] != ["a", "offset", "axis1", "axis2"]:
         raise SiteError("diagonal: parameters changed")
     # the body must start (after docstring / import) with the two axis normalisations, then the two guards
-    eff = [s for s in fn.body if not (isinstance(s, ast.Expr) and isinstance(s.value, ast.Constant))
-           and not isinstance(s, (ast.Import, ast.ImportFrom))]
+    eff = _effective(fn)[1:]          # [0] is the conversion `a = asCOO(a, name='diagonal')` (site_diagonal section)
     if [ast.unparse(x) for x in eff[:2]] != ["axis1 = normalize_axis(axis1, a.ndim)", "axis2 = normalize_axis(axis2, a.ndim)"]:
         raise SiteError("diagonal: the axis normalisation lines changed")
     out.append(_tr_expr("site_diagonal_axis_ndim", eff[0].value.args[1], ["ndim"], {"a.ndim": "Ok ndim"},
@@ -401,7 +496,6 @@ def _sec_glue(coo_tree):
         _require_line(fn, line)
     fn = _func(coo_tree, "stack")
     for line in ("shape.insert(axis, len(arrays))", "coords.insert(axis, new)",
-                 "assert len({x.shape for x in arrays}) == 1",
                  "for dim, x in enumerate(arrays):\n    new[nnz:x.nnz + nnz] = dim\n    nnz += x.nnz"):
         _require_line(fn, line)
     return ["(* glue lines of diagonalize / take and the loops of the COO joiners are textually as transcribed in\n"
